@@ -1,4 +1,5 @@
 import OrbitModel.Proofs.History
+import OrbitModel.Proofs.GenEqQuery
 import OrbitModel.Proofs.Window
 /-!
 # C08 — event log is append-only and stably ordered; range queries return exact windows
@@ -44,5 +45,9 @@ theorem get_returns_entry (L : List Entry) (h : Nat) (hnd : HashNodup L) (e : En
 /-- every result is a contiguous part of the listing, whatever the options -/
 theorem result_is_contiguous (L : List Entry) (o : StreamOpts) : ∃ a b, L = a ++ queryWin L o ++ b :=
   queryWin_contiguous L o
+
+/-- the `amount` normalisation of `eventlogstore.query` in the Go text of this run is the model's -/
+theorem amount_normalisation_tied_to_go_text (a : Option Int) (len : Nat) :
+    Gen.genNormAmount a.isSome (a.getD 0) len = (normAmount a len : Int) := gen_normAmount a len
 
 end Orbit.C08
